@@ -1454,6 +1454,7 @@ type caseRec struct {
 	// round 6: the statement was handed to a session and recorded at the wire (behind the real clickhouse-go driver); BindArgs = number
 	// of bind arguments of the call; Pre = the text handed to the session when the driver changed it
 	Args     []string `json:"args,omitempty"` // site "chbind": hex bind arguments
+	Ops      []string `json:"ops,omitempty"`  // site "gofmt" (round 8): typed operands "s:<hex>" string, "i:<decimal>" int, "l:<decimal>" int64
 	Wire     bool   `json:"wire,omitempty"`
 	BindArgs int    `json:"bind_args,omitempty"`
 	Pre      string `json:"pre,omitempty"`
@@ -1577,6 +1578,34 @@ func main() {
 			}
 			if c.Site == "gofmt" {
 				// round 5: what package fmt itself prints for a format over string operands (tie of model/GoFmt.v)
+				if c.Ops != nil {
+					// round 8: string and integer operands (tie of model/GoFmtInt.v)
+					var mixed []any
+					for _, o := range c.Ops {
+						switch {
+						case strings.HasPrefix(o, "s:"):
+							mixed = append(mixed, hx.UnHex(o[2:]))
+						case strings.HasPrefix(o, "i:"):
+							n, err := strconv.Atoi(o[2:])
+							if err != nil {
+								return
+							}
+							mixed = append(mixed, n)
+						case strings.HasPrefix(o, "l:"):
+							n, err := strconv.ParseInt(o[2:], 10, 64)
+							if err != nil {
+								return
+							}
+							mixed = append(mixed, n)
+						default:
+							return
+						}
+					}
+					rn.id++
+					out.Put(map[string]any{"kind": "fmt2", "id": rn.id, "format": c.Val, "ops": c.Ops,
+						"out": hx.Hex(fmt.Sprintf(hx.UnHex(c.Val), mixed...))})
+					return
+				}
 				ops := []any{"INNER ANY", "zq'x", "third"}
 				if c.Nargs < 0 || c.Nargs > len(ops) {
 					return
